@@ -471,3 +471,17 @@ def c11i(ctx):
             continue
         (ctx.ok if o.status == 'ok' else ctx.bad)('%s:%s' % (o.rule, o.construct), o.msg, o.where)
     ctx.stats['functions'] |= {q for q in sub.stats['functions'] if 'MetaGrid.' in q}
+
+
+@rule('C11.j', floor=2)
+def c11j(ctx):
+    """shared rule, re-evaluated for this property: the coverage a task walks is the configured one, also after it was transformed
+    into the SRS of the grid -- a re-projected polygon keeps its holes (C17.i); without them tiles whose meta tile lies completely
+    inside a hole, i.e. outside the coverage, are seeded"""
+    from ..engine import run_property
+    sub = run_property(ctx.repo, 'C17', ctx.tier, only={'C17.i'})
+    for er in sub.errors:
+        raise Undecided('shared rule %s: %s' % er)
+    for o in sub.obs:
+        (ctx.ok if o.status == 'ok' else ctx.bad)('%s:%s' % (o.rule, o.construct), o.msg, o.where)
+    ctx.stats['functions'] |= sub.stats['functions']
